@@ -42,7 +42,7 @@ def run(ctx, rep):
     T.check_sec_formula(rf)
     rch = rep.rule("chain", "file -> lines -> framing -> routing -> dispatcher -> note builder", floor=10)
     from .chain import check_chain
-    check_chain(ctx, rch, "instrument", strict=True)
+    check_chain(ctx, rch, "instrument", strict=True, recognisers=("chartparse.instrument.NoteEvent.ParsedData",))
     rd = rep.rule("defaults", "omitted bounds are None; the un-hinted query starts its scan at 0", floor=3)
     from .lib import check_param_defaults
     check_param_defaults(ctx, rd, "chartparse.chart.Chart.notes_per_second", {"start": None, "end": None})
